@@ -137,9 +137,9 @@ theorem lookupG_groupFold (l : List (Bytes × List Bytes)) :
     simp only [groupFold, List.foldl_cons] at ih ⊢
     rw [ih, lookupG_insertGroup]
     by_cases h : k = e.1
-    · subst h; simp [List.filter_cons]
+    · subst h; simp
     · have : ¬ e.1 = k := fun x => h x.symm
-      simp [h, this, List.filter_cons]
+      simp [h, this]
 
 theorem mem_keys_groupFold (l : List (Bytes × List Bytes)) :
     ∀ (m : Groups) (k : Bytes), k ∈ keys (groupFold m l) ↔ k ∈ keys m ∨ k ∈ l.map (·.1) := by
@@ -196,8 +196,8 @@ theorem filter_map_subs (subs : List (Bytes × Bytes)) (k : Bytes) :
   | nil => rfl
   | cons s rest ih =>
     by_cases h : s.1 = k
-    · simp [List.filter_cons, h, ih]
-    · simp [List.filter_cons, h, ih]
+    · simp [h, ih]
+    · simp [h, ih]
 
 theorem lookupG_groupAll (subs : List (Bytes × Bytes)) (deps : List (Bytes × List Bytes)) (k : Bytes) :
     lookupG (groupAll subs deps) k = expectedData subs deps k := by
